@@ -106,8 +106,10 @@ func (s *SelfManaged) Receive(c *actor.Context) {
 	case memberPing:
 		s.handleMemberPing(c)
 	case memberLeave:
-		member := s.members.GetByHost(msg.ListenAddr)
-		s.removeMember(member)
+		// reports for addresses that are not (or no longer) members are not ours.
+		if member := s.members.GetByHost(msg.ListenAddr); member != nil {
+			s.removeMember(member)
+		}
 	case *actor.Ping:
 	case actor.Initialized:
 		_ = msg
